@@ -130,6 +130,8 @@ def run():
                 cmp("isin", np.isin, np.isin, a, b)
                 if len(a) == len(b):
                     cmp("corrcoef", lambda x, y: np.corrcoef(x, y)[1, 0], lambda x, y: np.corrcoef(x, y)[1, 0], a, b)
+                    if len(a) >= 2:
+                        cmp("cov", lambda x, y: np.cov(x, y)[0, 1], lambda x, y: np.cov(x, y)[0, 1], a, b)
                     cmp("isclose", np.isclose, np.isclose, a, b)
                     cmp("minimum", np.minimum, np.minimum, a, b)
                     cmp("fmax", np.fmax, np.fmax, a, b)
